@@ -159,6 +159,37 @@ def rule_R2(ctx):
             if fam == "http":
                 _symmetric(ctx, P, b, ins, fn)
     ctx.floor("R2", "hash inputs classified", n, 20)
+    # the whole-frame fallback (which does not keep a connection together) is taken only when the identity cannot be read: the frame is
+    # strictly shorter than the headers, or the IP version is unknown - a complete minimal header never falls back
+    nfb = 0
+    for crate, fam in CRATES.items():
+        for b in P.bodies.values():
+            if b.crate != crate or "::packet_hash::" not in b.path:
+                continue
+            FS = None
+            for blk, t in b.calls():
+                if not callee_of(t).endswith("::fallback_hash"):
+                    continue
+                FS = FS or T.Slicer(b, P)
+                nfb += 1
+                conds = Q.canon_conds(P, T.dom_conds(b, FS, blk))
+                why = None
+                loose = None
+                for c in conds:
+                    if c[0] == "cmp" and T.has_call(c[2], "::len"):
+                        op = c[1] if c[4] else {"Lt": "Ge", "Ge": "Lt", "Gt": "Le", "Le": "Gt", "Eq": "Ne", "Ne": "Eq"}[c[1]]
+                        if op == "Lt":
+                            why = "frame shorter than the header"
+                        elif op == "Le":
+                            loose = "len <= %s" % T.pp(T.strip(c[3]))[:30]
+                    if c[0] == "int" and isinstance(c[2], tuple):
+                        why = why or "unknown IP version"
+                    if c[0] == "cmp" and c[1] in ("Ne", "Eq") and T.fold_int(c[3]) in (4, 6):
+                        why = why or "unknown IP version"
+                ctx.check(why is not None and loose is None, "R2", "%s:%s:fallback@%d" % (fam, T.short(b.path).split("::")[-1], nfb), "fallback hash only when %s" % why,
+                          "the whole-frame fallback hash is taken under `%s`: a frame that carries a complete header (exactly the minimum length) is sharded by TTL / id / length "
+                          "bytes instead of its connection identity" % (loose or "an unrecognised condition"), ctx.loc(b, blk))
+    ctx.floor("R2", "fallback_hash call sites", nfb, 5)
     # the per-version helpers are applied to the IP packet (the frame without its link-layer header) in both arms
     for crate, fam in CRATES.items():
         if fam == "tcp":
